@@ -22,7 +22,7 @@
    Free: which permission-class error code; whether an allowed access succeeds (C12's business);
    authorisation: there is no authorisation hook, "bit set => refused" is what Allowed says.
    "Readable / writable" follows the library's permission model, see CanRead / CanWrite.            *)
-EXTENDS Naturals, FiniteSets, TLC
+EXTENDS Naturals, FiniteSets, Sequences, TLC
 
 CONSTANTS Deviations
 
@@ -62,6 +62,36 @@ Why(op, p, sec) ==
           ELSE IF Bit(p, R_ENC) /\ sec = "plain" THEN "needs-encryption" ELSE IF Bit(p, R_AUTHN) /\ sec # "authn" THEN "needs-authentication" ELSE "allowed")
     ELSE (IF ~CanWrite(p) THEN "not-writeable" ELSE IF Bit(p, W_AUTHZ) THEN "needs-authorization"
           ELSE IF Bit(p, W_ENC) /\ sec = "plain" THEN "needs-encryption" ELSE IF Bit(p, W_AUTHN) /\ sec # "authn" THEN "needs-authentication" ELSE "allowed")
+
+(* ---- property layer: the link's security level as the controller's HCI security events establish it ----
+   `sec` above is a fact about the LINK, not about what the stack remembers.  When a link's security is produced by
+   HCI events (no pairing, no key material visible to the host), the level it can have reached is bounded by what the
+   events say.  On BR/EDR, Encryption Change with encryption_enabled = 1 is legacy E0 encryption: it says that the
+   link is encrypted and nothing about authentication, so without an Authentication Complete before it the link is
+   "enc", never "authn".  Encryption Change 2 (AES-CCM) and, on LE, Encryption Change 1 (the only "on" value LE
+   reports) do not tell whether the key is authenticated, Authentication Complete does not tell whether the key is
+   MITM protected: the property does not decide those, SecAfter takes the strongest level they could denote (Allowed
+   is monotone in the level, so this is the most permissive judgement).  Encryption Change 0: the link is plain. *)
+Transports == {"le", "bredr"}
+LinkEvents == {"auth", "enc0", "enc1", "enc2"}       \* Authentication Complete (success); Encryption Change (success) 0 / 1 / 2
+RECURSIVE LinkFold(_, _, _, _)
+LinkFold(tr, evs, enc, authn) ==
+    IF evs = <<>> THEN (IF ~enc THEN "plain" ELSE IF authn THEN "authn" ELSE "enc")
+    ELSE LET e == Head(evs)
+         IN  CASE e = "auth" -> LinkFold(tr, Tail(evs), enc, TRUE)
+               [] e = "enc0" -> LinkFold(tr, Tail(evs), FALSE, authn)
+               [] e = "enc1" -> LinkFold(tr, Tail(evs), TRUE, authn \/ tr = "le")
+               [] e = "enc2" -> LinkFold(tr, Tail(evs), TRUE, TRUE)
+SecAfter(tr, evs) == LinkFold(tr, evs, FALSE, FALSE)
+ASSUME /\ SecAfter("bredr", <<"enc1">>) = "enc"                 \* E0 alone never authenticates
+       /\ SecAfter("bredr", <<"auth", "enc1">>) = "authn"
+       /\ SecAfter("bredr", <<"enc1", "auth">>) = "authn"
+       /\ SecAfter("bredr", <<"enc1", "enc0">>) = "plain"
+       /\ SecAfter("le", <<"enc1">>) = "authn"
+       /\ SecAfter("bredr", <<>>) = "plain"
+       \* an authentication requirement is never met on a BR/EDR link that only saw E0 come on
+       /\ \A op \in PathOps, p \in Perms :
+              Allowed(op, p, SecAfter("bredr", <<"enc1">>)) => ~Bit(p, IF op \in ReadOps THEN R_AUTHN ELSE W_AUTHN)
 
 HasRsp(op)   == op # "write_cmd"
 Ranged(op)   == op \in {"read_by_type", "read_by_group"}
